@@ -13,7 +13,7 @@ func vLenMenu() []int {
 	if vTier() == 0 {
 		return []int{0, 3, 12}
 	}
-	return []int{0, 1, 2, 3, 4, 5, 6, 7, 8, 10, 12, 14, 16}
+	return []int{0, 1, 2, 3, 4, 5, 6, 7, 8, 10, 12, 14}
 }
 
 // the decoders that are not protocol bodies are few: longer buffers are affordable
@@ -21,7 +21,7 @@ func vLenMenuOther() []int {
 	if vTier() == 0 {
 		return []int{0, 3, 12}
 	}
-	return []int{0, 1, 2, 3, 4, 5, 6, 7, 8, 10, 12, 14, 16, 20, 24}
+	return []int{0, 1, 2, 3, 4, 5, 6, 7, 8, 10, 12, 14, 16, 20}
 }
 
 // C10-A: every response type and version on an arbitrary buffer of length L: no panic, no
@@ -95,10 +95,7 @@ func verifHarness_C10_recordBatchMutation() {
 	vAssume(err == nil)
 	// a window of w arbitrary bytes at every position (clipped at the end); a w-byte window
 	// subsumes every narrower one at the same position
-	w := 4
-	if vTier() > 0 {
-		w = 6
-	}
+	w := 4 // both tiers: 5- and 6-byte windows were measured at 25+ minutes for this harness alone
 	pos := vChoose("pos", len(raw))
 	for i := 0; i < w && pos+i < len(raw); i++ {
 		raw[pos+i] = vByte("m")
